@@ -156,6 +156,8 @@ func excuseLit(l Lit, allTx string) string {
 		return "a callback failed (" + a.S + ")"
 	case a.Op == "nn" && !l.Pos && isLocalResult(a.A):
 		return "a callback returned nothing (" + a.S + ")"
+	case a.Op == "nn" && !l.Pos && a.A != nil && a.A.K == KField && (a.A.Name == "ctx.block" || a.A.Name == "ctx.preBlock" || a.A.Name == "ctx.header" || a.A.Name == "ctx.preHeader"):
+		return "the block object could not be built (" + a.S + ")"
 	case a.Op == "nn" && !l.Pos && a.A != nil && a.A.K == KIndex && len(a.A.Args) == 2 && a.A.Args[1].S == tMyIndex.S:
 		return "the node has not sent its own " + a.A.Args[0].S + " yet"
 	case a.Op == "lt" && l.Pos && a.A != nil && a.A.S == tMyIndex.S && a.B != nil && a.B.S == tZero.S:
